@@ -40,6 +40,9 @@ func nopanicConfigs(r *rng, n int) []proxyCfg {
 		out = append(out, proxyCfg{ReverseProxy: true, RealClientIPHeader: h, InjectRequest: defaultInject(), SkipAuthRoutes: []string{"^/skip/"}})
 	}
 	out = append(out, proxyCfg{InjectRequest: defaultInject()}) // no reverse proxy, no trusted networks
+	// a backend logout URL (templated with the session's id_token) with every way of reaching sign-out without a session
+	out = append(out, proxyCfg{BackendLogout: true, InjectRequest: defaultInject(), SkipAuthRoutes: []string{"^/skip/", "^/oauth2/sign_out"}, SkipPreflight: true, TrustedIPs: []string{"10.0.0.0/8"}},
+		proxyCfg{BackendLogout: true, Redis: true, InjectRequest: defaultInject(), Htpasswd: map[string]string{"bob": "pw"}})
 	// force-https redirect in front of everything, with and without trusted forwarding headers
 	for _, rp := range []bool{false, true} {
 		out = append(out, proxyCfg{ForceHTTPS: true, ReverseProxy: rp, InjectRequest: defaultInject(), Htpasswd: map[string]string{"bob": "pw"}, SkipAuthRoutes: []string{"^/skip/"}})
@@ -106,7 +109,7 @@ var weirdFwd = []string{"", ", 10.0.0.1", " ,", "[", "[]", "[::1]", "[::1", "]",
 func init() {
 	registerSuite("nopanic", func(c *suiteCtx) {
 		u := defaultUser()
-		cfgs := nopanicConfigs(c.rng.fork(), 37+10*c.scale)
+		cfgs := nopanicConfigs(c.rng.fork(), 39+10*c.scale)
 		perCfg := 700
 		if c.scale > 1 {
 			perCfg = 2500
@@ -152,6 +155,8 @@ func init() {
 				}
 			}
 			seeds := []reqSpec{
+				{Target: "/oauth2/sign_out"}, {Target: "/oauth2/sign_out?rd=/x", Method: "OPTIONS"}, {Target: "/oauth2/sign_out", RemoteAddr: "10.1.2.3:9"}, {Target: "/oauth2/sign_out", Method: "POST", Body: "rd=/x"},
+				{Target: "/oauth2/sign_out", Header: http.Header{"Authorization": {basic}}},
 				{Target: "/app/x", RemoteAddr: "@", Header: http.Header{"X-Real-Ip": {"10.1.2.3"}, "X-Forwarded-For": {"10.1.2.3"}}}, {Target: "/oauth2/auth", RemoteAddr: "@", Header: http.Header{"X-Real-Ip": {"::1"}}},
 				{Target: "/app/x", Header: http.Header{"X-Forwarded-For": {", 10.0.0.1"}, "X-Real-Ip": {","}}}, {Target: "/oauth2/start", Header: http.Header{"X-Forwarded-For": {"[::1]"}, "X-Real-Ip": {"["}}},
 				{Target: "/oauth2/auth?allowed_email_domains=example.com", Header: http.Header{"Authorization": {basic}}}, {Target: "/oauth2/auth?allowed_emails=bob&allowed_groups=dev", Header: http.Header{"Authorization": {basic}}},
